@@ -614,6 +614,93 @@ def check_clone_settings(run, ix):
                        'ComplexResult, prints differently)' % (name, name), line=f.lineno))
 
 
+# --------------------------------------------------------------------------- X-R12
+def check_matrix_entry_conversion(run, ix):
+    """X-R12.  The numbers a matrix holds belong to the matrix's context: an mpf computes with the precision of ITS
+    context, so a clone's matrix that holds mp's numbers computes at mp's precision.  Entries normally arrive through
+    __setitem__, which converts.  The places that bypass it -- whole-dict stores `X.__data = Y.__data[.copy()]` and the
+    unconverted element transfer `__set_element(k, M.__get_element(..))` -- are accepted only when the source matrix is
+    `self`, was built by `self.ctx.matrix(...)`, or is tested with isinstance(M, self.ctx.matrix) (an instance of THIS
+    context's matrix class; `type(M.ctx) is type(self.ctx)` is not enough: a clone has the same context class)."""
+    MAT = 'mpmath/matrices/matrices.py'
+    m = ix.module(MAT)
+    ci = m.classes.get('_matrix')
+    if ci is None:
+        raise AnalysisError('_matrix vanished')
+    n = 0
+    for f in ci.methods.values():
+        me = f.params[0] if f.params else 'self'
+        makers = ('%s.ctx.matrix' % me, '%s.copy' % me, '%s.ctx.zeros' % me, '%s.ctx.ones' % me, '%s.ctx.eye' % me)
+
+        def is_own(name, node):
+            """`name` at `node` is self, or its nearest preceding definition (same block or an enclosing one) builds
+            a matrix of this context"""
+            if name == me:
+                return True
+            p = node
+            while p is not None:
+                par = getattr(p, '_parent', None)
+                if par is None:
+                    break
+                for field in ('body', 'orelse', 'finalbody'):
+                    blk = getattr(par, field, None)
+                    if isinstance(blk, list) and any(p is s_ for s_ in blk):
+                        idx = [i for i, s_ in enumerate(blk) if s_ is p][0]
+                        for s_ in reversed(blk[:idx]):
+                            if isinstance(s_, ast.Assign) and any(isinstance(t, ast.Name) and t.id == name
+                                                                  for t in s_.targets):
+                                return isinstance(s_.value, ast.Call) and norm(s_.value.func) in makers
+                if par is f.node:
+                    break
+                p = par
+            return False
+
+        def guarded(node, name):
+            if is_own(name, node):
+                return True
+            p = node
+            while p is not None and p is not f.node:
+                par = getattr(p, '_parent', None)
+                if isinstance(par, ast.If) and any(p is s_ for s_ in par.body):
+                    for c in (par.test.values if isinstance(par.test, ast.BoolOp) and isinstance(par.test.op, ast.And)
+                              else [par.test]):
+                        if norm(c).replace(' ', '') == 'isinstance(%s,%s.ctx.matrix)' % (name, me):
+                            return True
+                p = par
+            return False
+
+        def is_data(e):
+            return isinstance(e, ast.Attribute) and e.attr in ('__data', '_matrix__data') and isinstance(e.value, ast.Name)
+        for a in _walk_own(f.node):
+            if isinstance(a, ast.Assign) and len(a.targets) == 1 and is_data(a.targets[0]):
+                srcs = [x for x in ast.walk(a.value) if is_data(x)]
+                for x in srcs:
+                    n += 1
+                    if guarded(a, x.value.id):
+                        run.ok('X-R12', '%s: `%s` -- the source matrix belongs to this context' % (f.qualname, norm(a, 60)))
+                    else:
+                        run.fail(F('X-R12', MAT, f.qualname, a, 'the entries of `%s` are taken over without conversion, '
+                                   'and `%s` is not known to be a matrix of this context (built by %s.ctx.matrix or tested '
+                                   'with isinstance(%s, %s.ctx.matrix)): a clone\'s matrix built from an mp matrix then holds '
+                                   'mp\'s numbers and computes at mp\'s precision' % (x.value.id, x.value.id, me, x.value.id, me)))
+            if isinstance(a, ast.Call) and isinstance(a.func, ast.Attribute) and \
+                    a.func.attr in ('__set_element', '_matrix__set_element') and len(a.args) == 2:
+                v = a.args[1]
+                gets = [x for x in ast.walk(v) if isinstance(x, ast.Call) and isinstance(x.func, ast.Attribute) and
+                        x.func.attr in ('__get_element', '_matrix__get_element') and isinstance(x.func.value, ast.Name)]
+                for g in gets:
+                    n += 1
+                    src = g.func.value.id
+                    if guarded(a, src):
+                        run.ok('X-R12', '%s: unconverted element transfer from `%s`, a matrix of this context'
+                               % (f.qualname, src))
+                    else:
+                        st = enclosing_stmt(a)
+                        run.fail(F('X-R12', MAT, f.qualname, st, 'elements of `%s` are stored without conversion and `%s` is '
+                                   'not known to be a matrix of this context' % (src, src)))
+    return n
+
+
 # --------------------------------------------------------------------------- X-R10 / X-R11
 def constant_names(ix):
     """names under which the MP context publishes lazy constants: ctx.X = ctx.constant(...)"""
@@ -915,5 +1002,7 @@ def run(run, ix, tier):
     run.rule('X-R11', floor=1, desc='a borrowed context\'s trap_complex is neutralised and restored')
     check_clone_settings(run, ix)
     check_borrowed_computation(run, ix)
+    run.rule('X-R12', floor=3, desc='matrix entries taken over without conversion come from a matrix of the same context')
+    check_matrix_entry_conversion(run, ix)
     run.stats.update({'mutated_context_attributes': n2, 'allocation_sites': n4,
                       'modules_scanned': n5, 'foreign_context_sites': n6})
